@@ -101,6 +101,12 @@ def confirm(name, srcdir, prop):
             meta = {"name": name, "property": prop, "demo_package_dir": sub or ".",
                     "what_it_needs_to_manifest": "", "confirmed": res, "checks": {},
                     "how_confirmed": "scratch worktree of /repo HEAD: demo passes without the change; patch applies; go build; the 358 stable tests pass; demo fails with the change"}
+            mp = os.path.join(d, "meta.json")
+            if os.path.exists(mp):  # re-confirmation (a patch ported to a newer /repo HEAD): keep what was recorded
+                old = json.load(open(mp))
+                old["confirmed"] = res
+                old["ported_to"] = sh(["git", "-C", REPO, "rev-parse", "--short", "HEAD"])[1].strip()
+                meta = old
             json.dump(meta, open(os.path.join(d, "meta.json"), "w"), indent=1)
         return res
     finally:
@@ -120,9 +126,8 @@ def run(name, checks):
     if rc != 0:
         print("patch does not apply:", out)
         return 2
-    evdir = os.path.join(VERIF, "evidence")
-    keep = tempfile.mkdtemp(prefix="evkeep_", dir="/tmp")  # evidence describes runs on the unchanged tree only
-    shutil.copytree(evdir, os.path.join(keep, "evidence"))
+    outdir = tempfile.mkdtemp(prefix="seedout_", dir="/tmp")  # evidence/ and replays/ of runs on a changed tree never land in /verif
+    ENV["VERIF_OUT"] = outdir
     try:
         for c in checks:
             t0 = time.time()
@@ -137,9 +142,7 @@ def run(name, checks):
     finally:
         sh(["git", "-C", REPO, "checkout", "--", "."])
         sh(["git", "-C", REPO, "clean", "-fdq"])
-        shutil.rmtree(evdir)
-        shutil.copytree(os.path.join(keep, "evidence"), evdir)
-        shutil.rmtree(keep)
+        shutil.rmtree(outdir, ignore_errors=True)
     json.dump(meta, open(os.path.join(d, "meta.json"), "w"), indent=1)
     return 0
 
